@@ -3,7 +3,7 @@
 From Coq Require Import NArith List Lia ZArith Bool.
 Require Import SDS.Model.Mach SDS.Model.Bits SDS.Model.Raw SDS.Model.IntVec SDS.Model.BitVec SDS.Model.Sparse.
 Require Import SDS.Spec.BitSeq SDS.Spec.ValSeq SDS.Proofs.BitsProof SDS.Proofs.BVCommon SDS.Proofs.SparseSeq.
-Require Import SDS.Proofs.SparseProof SDS.Proofs.SparseBuild SDS.Proofs.SparseLow SDS.gen.Consts.
+Require Import SDS.Proofs.SparseProof SDS.Proofs.SparseBuild SDS.Proofs.SparseLow SDS.Proofs.SparseIter SDS.gen.Consts.
 Import ListNotations.
 Open Scope N_scope.
 Require Import ZifyBool ZifyN ZifyNat.
@@ -32,15 +32,17 @@ Qed.
 
 (* the set-bit iterators (one_iter, and the iterators returned by successor / predecessor / select_iter) under ANY
    sequence of next() / next_back() calls yield what a double-ended iterator over the reference list yields *)
-Definition iter_queries_ok (sp : selpath) (md : mode) (sv : sparse) (Vs : list N) : Prop :=
+Definition iter_queries_ok (sp : selpath) (md : mode) (sv : sparse) (n : N) (Vs : list N) : Prop :=
+  (forall pat, (let* s := sv_iter_new md sv in sbi_drive md sv pat s) = Ok (deque_run (vs_bits Vs n) pat)) /\
   (forall pat, it_drive md sv pat (sv_one_iter sv) = Ok (deque_run (vs_ranked Vs) pat)) /\
   (forall r pat, (let* it := sv_select_iter sp md sv r in it_drive md sv pat it) = Ok (deque_run (skipN (vs_ranked Vs) r) pat)) /\
   (forall v pat, (let* it := sv_predecessor sp md sv v in it_drive md sv pat it) = Ok (deque_run (vs_pred Vs v) pat)) /\
   (forall v pat, (let* it := sv_successor sp md sv v in it_drive md sv pat it) = Ok (deque_run (vs_succ Vs v) pat)).
 
-Lemma sv_ok_iters sp md sv n w Vs H : sv_ok sp md sv n w Vs H -> iter_queries_ok sp md sv Vs.
+Lemma sv_ok_iters sp md sv n w Vs H : sv_ok sp md sv n w Vs H -> iter_queries_ok sp md sv n Vs.
 Proof.
   intros Hok. unfold iter_queries_ok.
+  split; [intros pat; apply (q_bits_drive sp md sv n w Vs H Hok pat)|].
   split; [intros pat; apply (q_one_iter_drive sp md sv n w Vs H Hok pat)|].
   split; [intros r pat; apply (q_select_iter_drive sp md sv n w Vs H Hok r pat)|].
   split; [intros v pat; apply (q_predecessor_drive sp md sv n w Vs H Hok v pat)|].
@@ -85,7 +87,7 @@ Theorem sparse_set_exact sp md w' n P :
     high_code_ok sp md sv n (eff_width w' n (lenN P)) P H /\
     present_queries_ok sp md sv n P /\
     zero_queries_ok sp md sv n P /\
-    iter_queries_ok sp md sv P.
+    iter_queries_ok sp md sv n P.
 Proof.
   intros Hhc Hn Hw' Hinc Hbel Hfit.
   destruct low_contract_holds as [R [Rnew [Rset Rget]]].
@@ -104,7 +106,7 @@ Theorem sparse_multiset_exact sp md w' n Vs :
     sv_build_multiset sp md w' n Vs = Ok (inl sv) /\
     high_code_ok sp md sv n (eff_width w' n (lenN Vs)) Vs H /\
     present_queries_ok sp md sv n Vs /\
-    iter_queries_ok sp md sv Vs.
+    iter_queries_ok sp md sv n Vs.
 Proof.
   intros Hhc Hn Hw' Hnd Hbel Hfit.
   destruct low_contract_holds as [R [Rnew [Rset Rget]]].
@@ -119,7 +121,7 @@ Theorem sparse_try_from_iter_accepts sp md w' Vs :
   (forall v, last_opt Vs = Some v -> v + 1 < 2 ^ 64) ->
   let n := match last_opt Vs with Some v => v + 1 | None => 0 end in
   lenN Vs + buckets_of n (eff_width w' n (lenN Vs)) < 2 ^ 64 ->
-  exists sv, sv_try_from_iter sp md w' Vs = Ok (inl sv) /\ present_queries_ok sp md sv n Vs /\ iter_queries_ok sp md sv Vs.
+  exists sv, sv_try_from_iter sp md w' Vs = Ok (inl sv) /\ present_queries_ok sp md sv n Vs /\ iter_queries_ok sp md sv n Vs.
 Proof.
   intros Hhc Hw' Hnd Hlast n Hfit.
   destruct low_contract_holds as [R [Rnew [Rset Rget]]].
